@@ -70,18 +70,20 @@ def check_counters(sc, r):
     if r["P"] is None or r["R"] is None:
         return ["harness produced no result (crash?)"]
     n = sc.n
+    ended, extra, guard = r["R"]
+    if ended != n:
+        bad.append("cimba_run_experiment returned when %d of %d calls had finished" % (ended, n))
     for i in range(n):
         c = r["C"].get(i)
         if c is None or c[0] != 1:
             bad.append("trial %d was called %s times" % (i, c[0] if c else 0))
         elif c[1] != 1:
             bad.append("trial %d was not called with its own element" % i)
+        if len(bad) > 4:
+            break
     for i in r["C"]:
         if i >= n:
             bad.append("the trial function was called for index %d >= n = %d (%d times)" % (i, n, r["C"][i][0]))
-    ended, extra, guard = r["R"]
-    if ended != n:
-        bad.append("cimba_run_experiment returned when %d of %d calls had finished" % (ended, n))
     if extra:
         bad.append("%d call(s) with an address outside elements 0..n-1" % extra)
     if not guard:
